@@ -334,6 +334,12 @@ class Gen:
                 l, rr = rng.sample(ls, kl), rng.sample(rs, kr)
                 if rng.random() < 0.2 and l[0] in rs:
                     rr = [l[0]] + [x for x in rr if x != l[0]][:kr - 1]
+                if rng.random() < 0.1:
+                    # the same asset twice in one field: refused whatever else is in the model
+                    if rng.random() < 0.5 and lf.maximum != 1:
+                        l = [l[0], l[0]]
+                    elif rf.maximum != 1:
+                        rr = [rr[0], rr[0]]
                 try:
                     self.do(('new_assoc', cname, lf.fieldname, l, rf.fieldname, rr))
                     self.do(('add_assoc', len(w.assocs) - 1))
